@@ -107,6 +107,17 @@ def perturb_fields(rng, sf, covered_only_flag=0):
     return out
 
 
+_BIG = []
+
+
+def big_keys(n):
+    """n (seed, public key) pairs outside the small SEEDS pool"""
+    while len(_BIG) < n:
+        sd = hashlib.sha256(b'big key %d' % len(_BIG)).digest()
+        _BIG.append((sd, bytes(tsh.SigningKey(sd).verify_key)))
+    return _BIG[:n]
+
+
 def c13(rng):
     cfg = tsh.Cfg()
     a, b = rng.sample(range(len(SEEDS)), 2)
@@ -153,6 +164,16 @@ def c13(rng):
     if m >= 2:
         w3 = b''.join(bs(T.make_single_sig_witness(SEEDS[s], sf, flh)) for s in ([signers[0]] * m))
         out.append(('multisig:repeated-signature', [w3, bs(lock)], sf, cfg, False))
+    # many keys: the one-byte m / n operands on both sides of 127 / 128 and at 255
+    if rng.random() < 0.35:
+        nb_ = rng.choice([127, 128, 129, 200, 255])
+        big = big_keys(nb_)
+        lkb = T.make_multisig_lock([pk_ for _, pk_ in big], 2, alh)
+        i1, i2 = 0, nb_ - 1
+        wb_ = bs(T.make_single_sig_witness(big[i1][0], sf, flh)) + bs(T.make_single_sig_witness(big[i2][0], sf, flh))
+        out.append(('multisig: 2-of-%d (first and last holder)' % nb_, [wb_, bs(lkb)], sf, tsh.Cfg(), True))
+        wo_ = bs(T.make_single_sig_witness(big[i1][0], sf, flh)) + bs(T.make_single_sig_witness(SEEDS[a], sf, flh))
+        out.append(('multisig: 2-of-%d (one holder and an outsider)' % nb_, [wo_, bs(lkb)], sf, tsh.Cfg(), False))
     # script hash
     inner_ok = rng.random() < 0.7
     script = Script.from_src('true' if inner_ok else rng.choice(['false', 'true true', 'true return false']))
@@ -267,6 +288,16 @@ def c14(rng):
                     None, None, None, not acc))
     pf = perturb_fields(rng, sf)
     out.append(('delegate:covered-field-changed', [bs(T.make_delegate_key_witness(SEEDS[d1], cert, sf)), bs(lock)], dict(pf, timestamp=t), cfg, False))
+    # the slack threshold given per call: run_script(witness + lock, cache, additional_flags={'ts_threshold': X}) — the chain lock checks
+    # its windows inside a definition it calls, the single lock at top level; both must apply X
+    for thr_, dt_ in ((10, 30), (300, 150), (0, 500), (60, 30)):
+        certw = T.make_delegate_key_cert(SEEDS[root], PUBS[d1], now - 10, now + 1000)
+        cfgp = tsh.Cfg(flags={'ts_threshold': thr_})
+        exp_ = thr_ <= 0 or dt_ < thr_
+        out.append(('run_script: delegate lock, per-call ts_threshold=%d, t=now+%d' % (thr_, dt_),
+                    [bs(T.make_delegate_key_witness(SEEDS[d1], certw, sf)), bs(T.make_delegate_key_lock(PUBS[root]))], dict(sf, timestamp=now + dt_), cfgp, exp_))
+        out.append(('run_script: chain lock, per-call ts_threshold=%d, t=now+%d' % (thr_, dt_),
+                    [bs(T.make_delegate_key_chain_witness(SEEDS[d1], [certw], sf)), bs(T.make_delegate_key_chain_lock(PUBS[root]))], dict(sf, timestamp=now + dt_), cfgp, exp_))
     # chains
     L = rng.randint(1, 4)
     ids = [root] + rng.sample([i for i in range(len(SEEDS)) if i != root], L)
@@ -534,6 +565,16 @@ def c04(rng):
     cfg = tsh.Cfg(contracts=((REC, 'none'),))
     n = rng.randint(1, 7)
     bodies = [rng.choice(LEAF_BODIES) for _ in range(n)]
+    if rng.random() < 0.4:
+        # a leaf whose compiled length is exactly 255 / 256 / 257 / 300 bytes (the unlocking script has to push it: the sizes on
+        # both sides of the one-byte / two-byte push boundary)
+        j_ = rng.randrange(n)
+        L_ = rng.choice([255, 256, 256, 257, 300])
+        base_ = len(Script.from_src(leaf_src(j_, 'push x00 pop0 true')).bytes) - 1       # the one filler byte
+        k_ = L_ - base_
+        if 2 <= k_ <= 255 or k_ >= 256:
+            k_ = k_ if k_ <= 255 else k_ - 1          # a filler of 256+ bytes needs a two-byte size
+            bodies[j_] = 'push x%s pop0 true' % ('bb' * k_)
     srcs = [leaf_src(i, b) for i, b in enumerate(bodies)]
     own = [F.run_auth_scripts([Script.from_src(s).bytes], {}, cfg.contract_objs(tsh.Log())) for s in srcs]
     kind = rng.choice(['prioritized', 'balanced', 'classes', 'grown', 'grown-prioritized'])
@@ -582,7 +623,7 @@ def c04(rng):
         out.append(('%s proof with its first push dropped' % kind, [ub[first_len:], bs(lock)], {}, cfg, False, None, None))
     for i, u in enumerate(unlocks[:len(bodies)]):
         exp_log = 'v%s:%02x' % (REC.hex(), i)
-        out.append(('%s n=%d leaf=%d body=%r' % (kind, n, i, bodies[i]), [bs(u), bs(lock)], {}, cfg, own[i], None, exp_log))
+        out.append(('%s n=%d leaf=%d body=%r' % (kind, n, i, bodies[i] if len(bodies[i]) < 40 else 'padded to %d bytes' % len(Script.from_src(srcs[i]).bytes)), [bs(u), bs(lock)], {}, cfg, own[i], None, exp_log))
     # corruptions: nothing of the supplied script may start
     i = rng.randrange(len(unlocks))
     u = bytearray(bs(unlocks[i]))
@@ -748,6 +789,33 @@ def c05(rng):
         cands = [f for f in (1, 2, 4, 8, 0x10, 0x20, 0x40, 0x80) if f & ~fl]
         if bad_flag := (rng.choice(cands) if cands else None):
             out.append((nm + ':keyspend-flag-not-permitted', [bs(T.make_taproot_witness_keyspend(SEEDS[a], sf, S, sigflags='%02x' % bad_flag)), bs(lock)], sf, cfg, False, None, ''))
+    # corruption of the KEY by a small-order component: P' = P + (a point of order 8) is on the curve but not a valid ed25519 point;
+    # a root computed for P' must not be spendable through the script path under either lock (and the builders refuse such a key)
+    tors = bytes.fromhex(rng.choice(['c7176a703d4dd84fba3c0b760d10670f2a2053fa2c39ccc64ec7fd7792ac037a',
+                                     '26e8958fc2b227b045c3f489f2ef98f0d5dfac05d3c63339b13802886d53fc05',
+                                     '0000000000000000000000000000000000000000000000000000000000000000',
+                                     'ecffffffffffffffffffffffffffffffffffffffffffffffffffffffffffff7f']))
+    try:
+        Pm = nb.crypto_core_ed25519_add(P, tors)
+        St = Script.from_src('push d1 push d1 equal')
+        tm = F.clamp_scalar(hashlib.sha256(Pm + hashlib.sha256(St.bytes).digest()).digest())
+        rootm = nb.crypto_core_ed25519_add(Pm, nb.crypto_scalarmult_ed25519_base_noclamp(tm))
+        good_n, good_nn = bs(T.make_taproot_lock(P, St, sigflags='00')), bs(T.make_nonnative_taproot_lock(P, St, sigflags='00'))
+        t0_ = F.clamp_scalar(hashlib.sha256(P + hashlib.sha256(St.bytes).digest()).digest())
+        root0_ = ed_add(P, nb.crypto_scalarmult_ed25519_base_noclamp(t0_))
+        wm = gpush(St.bytes) + gpush(Pm)
+        if not nb.crypto_core_ed25519_is_valid_point(Pm) and good_n.count(root0_) == 1 and good_nn.count(root0_) == 1:
+            out.append(('taproot:scriptspend with an internal key of mixed order (honest key + small-order point), lock root computed for it',
+                        [wm, good_n.replace(root0_, rootm)], sf, tsh.Cfg(), False, None, None))
+            out.append(('nonnative:scriptspend with an internal key of mixed order (honest key + small-order point), lock root computed for it',
+                        [wm, good_nn.replace(root0_, rootm)], sf, tsh.Cfg(), False, None, None))
+            try:
+                T.make_taproot_lock(Pm, St); refused = False
+            except BaseException:
+                refused = True
+            out.append(('taproot: make_taproot_lock refuses an internal key that is not a valid ed25519 point', None, None, None, refused))
+    except BaseException:
+        pass
     # "all witnesses from the C01 adversarial witness family for native vs non-native": random programs of the VM generator, alone
     # and in front of the honest witnesses, against both locks of the same (key, script) — the two verdicts must be equal (the three
     # known footprints D18 / D19 / D23 need a committed script written to look at them; those are the tagged scenarios above)
